@@ -33,6 +33,36 @@ TRUSTED_BASE = [
     "harness/C04/driver.nelua (forking driver; fork/waitpid/pipe from libc), gcc, the OS delivering SIGABRT on abort()",
     "modelled rather than verified: the Lua generators of cbuiltins.lua/cemitter.lua are mirrored by hand in coq/C04/Model.v; tie = structural equality with the scraped helpers (proof obligation) + behavioural correspondence (testing)",
 ]
+THEOREM_CLASSES = {
+    "C04_helpers_are_the_emitted_ones": "tripwire",
+    "C04_narrow_fires_iff": "main",
+    "C04_no_check_sound": "main",
+    "C04_all_conversion_calls_checked": "main",
+    "C04_all_sites_checked": "corollary",
+    "C04_implicit_conversion_exact": "main",
+    "C04_bounds_fires_iff": "main",
+    "C04_deref_fires_iff": "main",
+    "C04_idiv_check_iff": "main",
+    "C04_imod_check_iff": "main",
+    "C04_tdiv_check_refuted": "refutation",
+    "C04_tdiv_check_partial": "main",
+    "C04_cast_wraps": "main",
+    "C04_lib_guard_iff": "main",
+}
+UNPROVED = [
+    "float -> integer narrowing (nelua_assert_narrow_<float>_<D>): correspondence against the exact oracle only, for x with trunc(x) representable in D",
+    "string.byte (index normalisation + guard): hand model, correspondence only",
+    "'before any invalid memory access': the mini-C has no memory; supported by the shape a->v[helper(i, N)] / the accessor returning only after its guard, and by the AddressSanitizer build of the driver in the thorough tier (testing)",
+    "that EVERY implicit conversion of cgenerator.lua goes through add_converted_val: a scrape (add_typed_val has the single caller add_converted_val) and the driver's 15 site streams, no theorem; sites SDeclStatic and SRecArrInit are in the scraped table but not exercised by the driver",
+    "exit status and diagnostic text: observed through the forking driver (signal 6 + message), message texts tied through the translator's table",
+    "containers of size >= 2^64 - 1, Strict/Wrapv C modes: theorems only (gcc default build tested; clang in thorough)",
+    "`///` and `%%%`: the emitted form is an inline expression, tied to Model.tdiv_fn/tmod_fn by correspondence only (no helper to scrape)",
+]
+MANIFEST_ENTRY = {
+    "text": "proof, partial: theorems (all integer types, all values) for array bounds, null dereference, integer->integer implicit narrowing at every add_converted_val call scraped from cgenerator.lua, checked // and %, explicit casts, span/vector/sequence/string accessors, with the emitted helpers tied term-for-term to the C generated on each run; `///` `%%%` by zero / min by -1 are REFUTED (open findings); float->integer narrowing, string.byte, 'before any invalid memory access' (ASan build), exit status/diagnostic and the completeness of the site list rest on differential testing only",
+    "note": "trusted: Coq kernel, Base/CInt Gnu mode = gcc/clang, harness/C04/cparse.py translator, regex scrapes of cgenerator.lua/cemitter.lua/lib/*.nelua, forking driver; harness/C04/{cparse.py,types.lua} are also used by checks/C02.py",
+    "technique": "machine-checked proof in Coq over an executable model + structural tie to the generated C + extracted-model/implementation correspondence",
+}
 ASSUMPTIONS = [
     "gcc/clang implement the Gnu mode of Base.CInt (documented implementation-defined behaviour)",
     "float -> integer narrowing is covered by correspondence only (x with trunc(x) representable in the destination); outside that range the C conversion is undefined behaviour (recorded under C03)",
@@ -48,10 +78,7 @@ SITES = ["arg", "decl", "assign", "ret1", "ret2", "retdefer", "arrinit", "recini
          "massign2", "massign3", "mswap", "munpack", "mdeclunpack", "mfield"]
 VISITORS = {"visitors.InitList": 1, "visitor_Call": 2, "visitors.Call": 3, "visitors.Return": 4,
             "visitors.ForNum": 5, "visitors.VarDecl": 6, "visitors.Assign": 7, "visitors.BinaryOp": 8}
-# driver site -> (visitor code, ordinal of the add_converted_val call inside that visitor)
-SITE_KEY = {"arg": (2, 5), "decl": (6, 1), "assign": (7, 1), "retdefer": (4, 1), "ret1": (4, 2),
-            "ret2": (4, 4), "arrinit": (1, 4), "recinit": (1, 2), "for": (5, 1), "cast": (3, 1)}
-SITE_CODE = {s: i for i, s in enumerate(["arg", "decl", "assign", "ret1", "ret2", "retdefer", "arrinit", "recinit", "for"])}
+TDIV_WITNESSES = {("tdiv", "int32", 7, 0), ("tmod", "int32", 7, 0), ("tdiv", "int64", -(1 << 63), -1), ("tmod", "int64", -(1 << 63), -1)}
 
 MSG = {1: "array index: position out of bounds", 3: "attempt to dereference a null pointer", 4: "division by zero"}
 
@@ -104,6 +131,22 @@ def build_driver(ctx):
     return exe, vlib.read(cfile)
 
 
+def build_variant(ctx, name, extra):
+    """The same driver built by the compiler under test with other C flags / another C compiler."""
+    fp = repo_fingerprint()
+    d = os.path.join(ctx.work, "drv-" + fp + "-" + name)
+    exe = os.path.join(d, "driver")
+    with vlib.Lock("C04-driver-" + name):
+        if not os.path.exists(exe):
+            os.makedirs(d, exist_ok=True)
+            src = os.path.join(d, "driver.nelua")
+            vlib.write_if_changed(src, vlib.read(os.path.join(vlib.VERIF, "harness", ID, "driver.nelua")))
+            rc, out, err = vlib.nelua_build(src, exe, cache_dir=os.path.join(d, "cache"), extra=extra)
+            if rc != 0 or not os.path.exists(exe):
+                raise RuntimeError("driver variant %s does not build: %s" % (name, (out + err)[-1500:]))
+    return exe
+
+
 def load_types(ctx):
     rc, out, err = vlib.run_lua(os.path.join(vlib.VERIF, "harness", ID, "types.lua"), ITYPES + ["cint"])
     if rc != 0:
@@ -153,6 +196,16 @@ def scrape_sites():
     if not m:
         raise RuntimeError("cemitter.add_converted_val: the rule computing `checked` from force/untypedinit changed shape")
     scrape_sites.rule_ignores_untypedinit = (m.group(1) == "not force")
+    # every checked / unchecked integer conversion is emitted by add_typed_val, whose only caller must
+    # be add_converted_val (supports "every implicit conversion passes through the scraped call sites")
+    callers = []
+    for f in vlib.walk_files(os.path.join(vlib.REPO, "lualib", "nelua"), (".lua",)):
+        for ln, line in enumerate(vlib.read(f).split("\n"), 1):
+            if re.search(r"[:.]add_typed_val\(", line) and not re.search(r"function CEmitter:add_typed_val", line):
+                callers.append("%s:%d" % (os.path.relpath(f, vlib.REPO), ln))
+    if len(callers) != 1 or not callers[0].startswith("lualib/nelua/cemitter.lua"):
+        raise RuntimeError("add_typed_val is expected to have the single caller add_converted_val; found %s" % callers)
+    scrape_sites.typed_val_callers = callers
     if not re.search(r"if check and not self\.context\.pragmas\.nochecks and type\.is_integral and valtype\.is_scalar and\s*\n\s*not type:is_type_inrange\(valtype\) then", em):
         raise RuntimeError("cemitter.add_typed_val: the needs-check condition changed shape")
     return out
@@ -195,6 +248,9 @@ def scrape_guards():
             raise RuntimeError("cannot find %s in %s" % (hdr, rel))
         body = src[m.end():]
         body = body[:re.search(r"\n  end\n|\nend\n", body).start()]
+        allg = re.findall(r"\b(?:check|assert)\(", body)
+        if len(allg) != 1:
+            raise RuntimeError("%s (%s): expected exactly one check()/assert() in the accessor, found %d" % (key, rel, len(allg)))
         g = re.search(r"\b(check|assert)\((.*), '([^']*)'\)", body)
         if not g:
             raise RuntimeError("no check()/assert() found in %s (%s)" % (key, rel))
@@ -297,6 +353,7 @@ def gen(ctx):
     return {"types": {k: {"bits": v[0], "signed": v[1]} for k, v in types.items()},
             "helpers": {"narrow": len(narrow), "bounds": len(bounds), "idiv": len(idiv), "imod": len(imod), "deref": 1,
                         "float_narrow_not_translated": len(skipped)},
+            "add_typed_val_callers": scrape_sites.typed_val_callers,
             "check_rule": "checked = not force" if scrape_sites.rule_ignores_untypedinit else "checked = not (force or untypedinit)",
             "conversion_sites": [{k: s[k] for k in ("line", "visitor", "ordinal", "args", "force", "untypedinit")} for s in sites],
             "library_guards": {k: {"source": v["source"], "message": v["message"]} for k, v in guards.items()},
@@ -360,7 +417,7 @@ def narrow_case(stream, site, s, d, x):
     ok = inrange(d, x)
     oracle = "V %d" % x if ok else "P 2"
     return Case(stream, "narrow %s %s %s %d" % (site, s, d, x), "narrow %s %s %s %s" % (site, tb(s), tb(d), hx(x)), oracle,
-                key=None if ok else "unchecked-implicit-narrowing:" + site, nontrivial=x not in (0, 1))
+                nontrivial=x not in (0, 1))
 
 
 def lib_oracle(op, t, i, size):
@@ -472,20 +529,28 @@ def gen_cases(ctx):
                     orc = "V %d" % (wrap(t, a // b) if op == "idiv" else a % b)
                 cases.append(Case(op, "%s %s %d %d" % (op, t, a, b), "%s %s %s %s" % (op, tb(t), hx(a), hx(b)), orc,
                                   nontrivial=a not in (0, 1) and b not in (0, 1)))
-    # 5b. truncating division /// and %%% of signed integers (plain C operators, no helper)
+    # 5b. truncating division /// and %%% of signed integers (plain C operators, no helper).  Open findings:
+    # the designated witnesses carry their exact input as key; any other input is matched only when the
+    # model of the unchanged code predicts the outcome, under a key naming code site, operator, type and cause
     for t in STYPES:
         lo, hi = rng_of(t)
         for a in sorted(lattice(t) | {7, -7}):
             for b in (0, -1, 1, 2, -2, lo, hi):
                 for op in ("tdiv", "tmod"):
+                    key = None
                     if b == 0:
-                        orc, key = "P 4", "truncating-division-by-zero-no-diagnostic:" + op
+                        orc = "P 4"
+                        key = "cbuiltins.operators.%s:plain-C-operator:%s:division-by-zero-without-diagnostic" % (op, t)
                     else:
                         q = abs(a) // abs(b)
                         q = q if (a < 0) == (b < 0) else -q
                         orc = "V %d" % (wrap(t, q) if op == "tdiv" else a - q * b)
-                        key = ("truncating-division-min-by-minus-one-traps:" + op) if (a == lo and b == -1) else None
-                    cases.append(Case("tdiv", "%s %s %d %d" % (op, t, a, b), None, orc, key=key, nontrivial=a not in (0, 1)))
+                        if a == lo and b == -1:
+                            key = "cbuiltins.operators.%s:plain-C-operator:%s:min-by-minus-one-undefined" % (op, t)
+                    if (op, t, a, b) in TDIV_WITNESSES:
+                        key = None          # exact key "case:<input>"
+                    cases.append(Case("tdiv", "%s %s %d %d" % (op, t, a, b), "%s %s %s %s" % (op, tb(t), hx(a), hx(b)), orc, key=key,
+                                      nontrivial=a not in (0, 1)))
     # 6. pointer dereference
     cases.append(Case("deref", "deref 0", "deref 0", "P 3", cmpval=False, nontrivial=False))
     cases.append(Case("deref", "deref 1", "deref 1", "V 4242", cmpval=False, nontrivial=False))
@@ -658,13 +723,15 @@ def correspond(ctx):
                 mgood = impl.startswith("V") and (not c.cmpval or impl == "V %d" % mv)
             elif m.startswith("P "):
                 mgood = impl.startswith("P " + m[2:])
+            elif m == "UB":
+                mgood = impl.startswith("X ")      # undefined in the C model: the child dies (SIGFPE ...)
             else:
                 mgood = False
         else:
             mgood = True
         if not good:
             n_oracle += 1
-            key = c.key or ("case:" + c.impl)
+            key = c.key if (c.key and mgood) else ("case:" + c.impl)
             per_key[key] = per_key.get(key, 0) + 1
             if per_key[key] == 1:
                 ctx.violation(key, "oracle",
@@ -678,7 +745,30 @@ def correspond(ctx):
                               "model no longer corresponds to the code on `%s`: model `%s`, implementation `%s` (= property oracle)" % (c.impl, m, impl),
                               detail={"case": c.impl, "model_case": c.model, "implementation": raw, "model": m, "oracle": orc,
                                       "no_longer_checks": "correspondence stream C04/" + c.stream}, failing_input=False)
+    variants = {}
+    if ctx.thorough:
+        # "before any invalid memory access": the memory-touching streams again under AddressSanitizer
+        # (an access slipping past a check is reported by ASan in the child's stderr) and under clang
+        mem = [(c, raw) for c, raw in zip(cases, impl_out) if c.stream in ("bounds", "lib-at", "lib-mod", "lib-bigspan", "strbyte", "deref", "narrow-sites", "corpus")]
+        for name, extra in (("asan", ["--cflags", "-fsanitize=address -fno-omit-frame-pointer -g"]), ("clang", ["--cc", "clang"])):
+            try:
+                vexe = build_variant(ctx, name, extra)
+                vout = run_impl(vexe, [c.impl for c, _ in mem], 8)
+            except RuntimeError as ex:
+                ctx.violation("variant-build:" + name, "harness", "driver variant %s could not be built/run: %s" % (name, ex), failing_input=False)
+                continue
+            nd = 0
+            for (c, raw), v in zip(mem, vout):
+                if "AddressSanitizer" in v or canon_impl(v, c) != canon_impl(raw, c):
+                    nd += 1
+                    if nd <= 3:
+                        ctx.violation("case:%s:%s" % (name, c.impl), "oracle",
+                                      "C04 `%s` under the %s build gives `%s`, the default build `%s`%s" % (c.impl, name, v[:300], raw[:200],
+                                       " (AddressSanitizer report: an invalid access happened)" if "AddressSanitizer" in v else ""),
+                                      detail={"case": c.impl, "variant": name, "output": v, "default_output": raw})
+            variants[name] = {"cases": len(mem), "differences": nd}
     return {
+        "build_variants": variants or "thorough tier only (ASan and clang builds of the driver)",
         "evaluations": len(cases),
         "distinct_nontrivial": len(nontrivial),
         "rule": "cases = corpus + per stream: conversions over all 100 (source,destination) pairs (8-bit sources exhaustively, other widths on the boundary lattice of both types and powers of two), 9 conversion sites, explicit casts, array indexing for 10 index types x 17 lengths (8-bit index types exhaustively for lengths <= 17), checked // and % (int8 sampled/exhaustive, wider on the lattice squared), containers (positions around 0/size/type limits, spans up to 2^64-1), string.byte, float sources; non-trivial = distinct cases whose operand is not 0/1",
@@ -688,6 +778,5 @@ def correspond(ctx):
         "oracle_failures_by_key": per_key,
         "model_mismatches": n_mismatch,
         "traces_validated_against_impl": len(mcases),
-        "unproved": ["float -> integer narrowing (nelua_assert_narrow_<float>_<D>): correspondence against the exact oracle only",
-                     "string.byte index normalisation: hand model, correspondence only"],
+        "unproved": UNPROVED,
     }
